@@ -79,7 +79,7 @@ def report_from_text(text, paired, minimal):
 def _generate(rng, tier):
     return gen.gen_case(rng, {
         "p_filters": 0.85, "p_redirect": 0.6, "p_untrimmed_opts": 0.6, "p_demux": 0.3, "p_combinatorial": 0.5,
-        "p_minimal_report": 0.25, "p_info": 0.1, "p_rename": 0.1, "p_modifiers": 0.5, "p_long_read": 0.02, "p_devnull": 0.08, "p_qbase64": 0.04, "p_giant": 0.002, "p_bam": 0.05,
+        "p_minimal_report": 0.25, "p_info": 0.1, "p_rename": 0.1, "p_modifiers": 0.5, "p_long_read": 0.02, "p_devnull": 0.08, "p_qbase64": 0.04, "p_giant": 0.002, "p_bam": 0.05, "p_enospc": 0.08,
     })
 
 
@@ -355,6 +355,9 @@ def evaluate(case, ctx):
     if ref.exit == 2:
         raise engine.Discard("cli-rejected")
     viols = []
+    if ref.exit != 0 and ref.env_fired.get("enospc") and ref.error_reported():
+        # the injected full disk was noticed and reported: a legitimately failed run, nothing to account for
+        raise engine.Discard("disk-full-reported")
     if ref.exit != 0:
         if "AssertionError" in ref.stderr and "as_json" in ref.stderr:
             viols.append(C.V("json-assertion", "serial: --json crashed: assert written_reads + filtered_total == self.n"))
@@ -367,7 +370,9 @@ def evaluate(case, ctx):
     hv = C.hang_violations(par, "par")
     if hv:
         return viols + hv
-    if par.exit != 0:
+    if par.exit != 0 and par.env_fired.get("enospc") and par.error_reported():
+        pass  # as above
+    elif par.exit != 0:
         if C.is_buffer_too_small(par, case):
             raise engine.Discard("buffer-too-small")
         viols.append(C.V("exit-status", f"par: exit status {par.exit}; stderr tail {par.stderr[-300:]!r}"))
